@@ -51,10 +51,17 @@ def uncontractSegmented (one : ν) (shells : List (Shell ν)) : List (Shell ν) 
 
 def isSingleColumn (val : ν → Rat) (col : List ν) : Bool := (col.filter (fun c => val c != 0)).length == 1
 
+/-- the column filter of `remove_free_primitives`; in a fused shell a column takes its angular momentum with it (fix ed2ae683: before it, the
+momentum list was left as it was and the shell came out with fewer columns than momenta) and the tag is dropped when only s/p remain -/
 def removeFreeCore (val : ν → Rat) (shells : List (Shell ν)) : List (Shell ν) :=
   shells.filterMap fun sh =>
-    let kept := sh.coefs.filter (fun c => !isSingleColumn val c)
-    if kept.isEmpty then none else some { sh with coefs := kept }
+    if sh.am.length > 1 then
+      let kept := (sh.am.zip sh.coefs).filter (fun p => !isSingleColumn val p.2)
+      if kept.isEmpty then none else
+        some { sh with am := kept.map (·.1), coefs := kept.map (·.2), ftype := lowType (kept.map (·.1)) sh.ftype }
+    else
+      let kept := sh.coefs.filter (fun c => !isSingleColumn val c)
+      if kept.isEmpty then none else some { sh with coefs := kept }
 
 def removeFree [DecidableEq ν] (val : ν → Rat) (shells : List (Shell ν)) : Except String (List (Shell ν)) :=
   pruneShells val (removeFreeCore val shells)
